@@ -178,4 +178,172 @@ theorem no_lost_wakeup (s : DState) (hstarted : s.started = true) (hnd : s.reque
 example : receiveMany 4 { stored := none, items := [.ok [1], .bad 3, .ok [2], .endOK] } =
     [.msg [1], .fail 3, .fail 3, .fail 3] := by decide
 
+/-! ### observed traces of synchronisation points -/
+
+theorem drun_append (s : DState) (a b : List DAction) :
+    drun s (a ++ b) = (drun s a).bind fun s' => drun s' b := by
+  induction a generalizing s with
+  | nil => simp [drun]
+  | cons x rest ih =>
+    simp only [List.cons_append, drun]
+    cases dstep s x with
+    | none => simp
+    | some s1 => simp [ih]
+
+/-- a trace replay is a run of the transition system -/
+theorem traceRun_eq_drun (evs : List Ev) (s : DState) :
+    traceRun s evs = drun s (evs.flatMap Ev.actions) := by
+  induction evs generalizing s with
+  | nil => simp [traceRun, drun]
+  | cons e rest ih =>
+    simp only [traceRun, List.flatMap_cons, drun_append]
+    cases drun s e.actions with
+    | none => simp
+    | some s1 => simp [ih]
+
+/-- **trace_accepted_inv**: every state reached by an accepted trace satisfies the hand-over
+    invariant (no read of `d.response` before `responseReady` is closed). -/
+theorem trace_accepted_inv (evs : List Ev) (s : DState) (h : traceRun DState.init evs = some s) : DInv s := by
+  rw [traceRun_eq_drun] at h
+  exact response_read_only_after_ready _ _ _ DInv_init h
+
+theorem dstep_requestDone (s s' : DState) (a : DAction) (h : dstep s a = some s') (hne : a ≠ .closeReady) :
+    s'.requestDone = s.requestDone := by
+  cases a with
+  | ensureRequestMade => simp [dstep] at h; subst h; rfl
+  | doReturns ok =>
+    simp only [dstep] at h
+    split at h
+    · cases ok <;> simp at h <;> subst h <;> rfl
+    · cases h
+  | validate ok =>
+    simp only [dstep] at h
+    split at h
+    · cases ok <;> simp at h <;> subst h <;> rfl
+    · cases h
+  | closeReady => exact absurd rfl hne
+  | apiBlock => simp [dstep] at h; subst h; rfl
+  | apiProceed =>
+    simp only [dstep] at h
+    split at h
+    · simp at h; subst h; rfl
+    · cases h
+  | setError c => simp [dstep] at h; subst h; rfl
+
+theorem drun_requestDone : ∀ (acts : List DAction) (s s' : DState), drun s acts = some s' →
+    DAction.closeReady ∉ acts → s'.requestDone = s.requestDone
+  | [], s, s', h, _ => by simp [drun] at h; subst h; rfl
+  | a :: rest, s, s', h, hn => by
+    simp only [drun] at h
+    cases hs : dstep s a with
+    | none => rw [hs] at h; simp at h
+    | some s1 =>
+      rw [hs] at h
+      simp only [Option.bind_some] at h
+      rw [drun_requestDone rest s1 s' h (fun hm => hn (List.mem_cons_of_mem _ hm)),
+        dstep_requestDone s s1 a hs (fun e => hn (e ▸ List.mem_cons_self))]
+
+/-- `requestDone` is only ever set by the `request.closeready` point -/
+theorem requestDone_needs_closeReady (e : Ev) (s s' : DState) (h : drun s e.actions = some s')
+    (hne : e ≠ .requestCloseReady) : s'.requestDone = s.requestDone := by
+  apply drun_requestDone _ _ _ h
+  cases e <;> simp [Ev.actions] <;> exact absurd rfl hne
+
+/-- **accepted_use_after_ready**: in an accepted trace every point at which the API goroutine
+    uses the response (`read.ready`, `read.body`, `read.done`, `closeread`) comes after the
+    `request.closeready` point of the request goroutine. -/
+theorem accepted_use_after_ready : ∀ (pre : List Ev) (e : Ev) (post : List Ev) (s0 s : DState),
+    s0.requestDone = false → traceRun s0 (pre ++ e :: post) = some s → e.isResponseUse = true →
+    Ev.requestCloseReady ∈ pre
+  | [], e, post, s0, s, h0, h, hu => by
+    simp only [List.nil_append, traceRun] at h
+    cases e <;> simp [Ev.isResponseUse] at hu <;>
+      simp [Ev.actions, drun, dstep, h0] at h
+  | p :: pre, e, post, s0, s, h0, h, hu => by
+    by_cases hp : p = .requestCloseReady
+    · subst hp; exact List.mem_cons_self
+    · simp only [List.cons_append, traceRun] at h
+      cases hs : drun s0 p.actions with
+      | none => rw [hs] at h; simp at h
+      | some s1 =>
+        rw [hs] at h
+        simp only [Option.bind_some] at h
+        have h1 : s1.requestDone = false := by rw [requestDone_needs_closeReady p s0 s1 hs hp]; exact h0
+        exact List.mem_cons_of_mem _ (accepted_use_after_ready pre e post s1 s h1 h hu)
+
+theorem dstep_requestDone_mono (s s' : DState) (a : DAction) (h : dstep s a = some s') (hd : s.requestDone = true) :
+    s'.requestDone = true := by
+  by_cases ha : a = .closeReady
+  · subst ha; simp [dstep, hd] at h
+  · rw [dstep_requestDone s s' a h ha]; exact hd
+
+theorem drun_requestDone_mono : ∀ (acts : List DAction) (s s' : DState), drun s acts = some s' →
+    s.requestDone = true → s'.requestDone = true
+  | [], s, s', h, hd => by simp [drun] at h; subst h; exact hd
+  | a :: rest, s, s', h, hd => by
+    simp only [drun] at h
+    cases hs : dstep s a with
+    | none => rw [hs] at h; simp at h
+    | some s1 =>
+      rw [hs] at h
+      simp only [Option.bind_some] at h
+      exact drun_requestDone_mono rest s1 s' h (dstep_requestDone_mono s s1 a hs hd)
+
+theorem traceRun_requestDone_mono : ∀ (evs : List Ev) (s s' : DState), traceRun s evs = some s' →
+    s.requestDone = true → s'.requestDone = true
+  | [], s, s', h, hd => by simp [traceRun] at h; subst h; exact hd
+  | e :: rest, s, s', h, hd => by
+    simp only [traceRun] at h
+    cases hs : drun s e.actions with
+    | none => rw [hs] at h; simp at h
+    | some s1 =>
+      rw [hs] at h
+      simp only [Option.bind_some] at h
+      exact traceRun_requestDone_mono rest s1 s' h (drun_requestDone_mono _ s s1 hs hd)
+
+theorem traceRun_append (a b : List Ev) (s : DState) :
+    traceRun s (a ++ b) = (traceRun s a).bind fun s' => traceRun s' b := by
+  induction a generalizing s with
+  | nil => simp [traceRun]
+  | cons e rest ih =>
+    simp only [List.cons_append, traceRun]
+    cases drun s e.actions with
+    | none => simp
+    | some s1 => simp [ih]
+
+/-- **accepted_ready_once**: an accepted trace passes `request.closeready` at most once
+    (closing a closed channel panics). -/
+theorem accepted_ready_once (a b c : List Ev) (s0 s : DState) :
+    traceRun s0 (a ++ Ev.requestCloseReady :: (b ++ Ev.requestCloseReady :: c)) ≠ some s := by
+  intro h
+  rw [traceRun_append] at h
+  cases ha : traceRun s0 a with
+  | none => rw [ha] at h; simp at h
+  | some s1 =>
+    rw [ha] at h
+    simp only [Option.bind_some, traceRun] at h
+    cases h1 : drun s1 Ev.requestCloseReady.actions with
+    | none => rw [h1] at h; simp at h
+    | some s2 =>
+      rw [h1] at h
+      simp only [Option.bind_some] at h
+      have hd2 : s2.requestDone = true := by
+        simp only [Ev.actions, drun, dstep] at h1
+        split at h1
+        · simp at h1; subst h1; rfl
+        · simp at h1
+      rw [traceRun_append] at h
+      cases hb : traceRun s2 b with
+      | none => rw [hb] at h; simp at h
+      | some s3 =>
+        rw [hb] at h
+        have hd3 := traceRun_requestDone_mono b s2 s3 hb hd2
+        simp [traceRun, Ev.actions, drun, dstep, hd3] at h
+
+/-! non-vacuity: a real trace shape (unary call) is accepted; one with the response used before
+    the hand-over is not -/
+example : (traceRun DState.init [.writeCtx, .requestDo, .writePipe, .writeDone, .closeWrite, .requestDone,
+    .requestCloseReady, .readReady, .readBody, .readDone, .closeRead]).isSome = true := by decide
+example : traceRun DState.init [.writeCtx, .requestDo, .closeRead, .requestDone, .requestCloseReady] = none := by decide
+
 end ConnectModel.C14
